@@ -422,7 +422,7 @@ def run_py(scratch: Scratch, args: list[str], *, input_text: str | None = None, 
     return subprocess.run([PY] + args, input=input_text, capture_output=True, text=True, timeout=timeout, env=e, cwd=cwd)
 
 
-MAX_JOBS_PER_WORKER = int(os.environ.get("VERIF_MAX_JOBS_PER_WORKER", "200"))
+MAX_JOBS_PER_WORKER = int(os.environ.get("VERIF_MAX_JOBS_PER_WORKER", "60"))
 
 
 def parallel_py(scratch: Scratch, script: str, jobs: list[Any], *, nproc: int | None = None, timeout: int = 5400, env=None) -> list[Any]:
